@@ -151,3 +151,36 @@ Theorem C03_set_keeps_or_appends : forall c, c_cull_limit c = 0 -> forall s k v 
   end.
 Proof. exact set_position. Qed.
 Print Assumptions C03_set_keeps_or_appends.
+
+(* ---- key-ordered iteration: Cache.iterkeys pages through the table 100 rows at a time by (key, raw) cursor;
+        for every table size it lists every row exactly once in ORDER BY key, raw (reverse=True: the reverse),
+        and changes nothing.  Hypothesis beyond the invariant: no NULL key. ---- *)
+From DC Require Import DictExamples IterkeysFacts.
+
+Theorem C03_iterkeys_is_key_order : forall s reverse,
+  Sinv s -> forallb (fun r => key_nonnull (rkey r)) (rows s) = true ->
+  op_iterkeys s reverse = (s, RKeys (keys_of (sql_order reverse [ord_sql rkey; ord_bool rraw] (rows s)))).
+Proof. exact iterkeys_sinv. Qed.
+Print Assumptions C03_iterkeys_is_key_order.
+
+Theorem C03_iterkeys_changes_nothing : forall s reverse, fst (op_iterkeys s reverse) = s.
+Proof. exact iterkeys_state. Qed.
+Print Assumptions C03_iterkeys_changes_nothing.
+
+(* the hypotheses are satisfiable: a reachable 7-row state with int, float, text, bytes and pickled keys *)
+Theorem C03_iterkeys_hyps_satisfiable :
+  Sinv iterkeys_demo_st /\ Winv iterkeys_demo_st /\
+  forallb (fun r => key_nonnull (rkey r)) (rows iterkeys_demo_st) = true /\
+  length (rows iterkeys_demo_st) = 7%nat.
+Proof. exact iterkeys_demo_hyps. Qed.
+Print Assumptions C03_iterkeys_hyps_satisfiable.
+
+(* FULL statement (no hypothesis on NULL keys) is refuted: float('nan') keys are stored as NULL, each set
+   inserts a new row, and iterkeys stops at / never reaches the NULL rows.  Witness: c[nan]=1; c[7]=2; c[nan]=3;
+   list(c.iterkeys()) == [None], list(c.iterkeys(reverse=True)) == [7], len(c) == 3 (finding C03-F1). *)
+Theorem C03_iterkeys_null_key_refuted :
+  exists h, (forall x, In x h -> is_push (fst (fst x)) = false) /\
+    let s := run demo_cfg init_st h in
+    Sinv s /\ forall reverse, snd (op_iterkeys s reverse) <> RKeys (keys_of (sql_order reverse [ord_sql rkey; ord_bool rraw] (rows s))).
+Proof. exact iterkeys_all_rows_refuted. Qed.
+Print Assumptions C03_iterkeys_null_key_refuted.
